@@ -125,6 +125,9 @@ class Monitor:
         self.unsound_at: dict[int, set[str]] = {}
         self.unsound_terms: dict[int, set[int]] = {}
         self.oldterm_commit: set[int] = set()
+        self.beyond_compared: set[int] = set()  # indices a follower committed past prev_log_index+len(entries)
+        self.cur_ae_verified = None  # set while the sampled delivery is an AppendEntries
+        self.pending_div: list = []  # divergent applies seen inside a handler, named after the sample
         self.applied_at: dict[int, tuple] = {}
         self.n_applies = 0
         self.dirty = False
@@ -183,11 +186,13 @@ class Monitor:
                 return
             et = ev.event_type
             self.order_hash = (self.order_hash * 1000003 + i * 7 + _TYPE_CODE.get(et, 0)) & 0xFFFFFFFFFFFF
+            self.cur_ae_verified = None
             if et == "RaftAppendEntries":
                 md = ev.context["metadata"]
                 t = md["term"]
                 self.last_ae_seq[(i, t)] = self.seq
-                self.ae_q[i].append((md.get("prev_log_index", 0) + len(md.get("entries", ())), t))
+                self.cur_ae_verified = md.get("prev_log_index", 0) + len(md.get("entries", ()))
+                self.ae_q[i].append((self.cur_ae_verified, t))
             elif et == "RaftAppendEntriesResponse":
                 md = ev.context["metadata"]
                 tag = self.resp_tag.pop(id(md), None)
@@ -195,6 +200,7 @@ class Monitor:
                     over, verified = (tag[1], tag[2]) if tag else (False, None)
                     self.acked[i][md["from"]] = (md["match_index"], md["term"], over, verified)
             self.sample(i)
+            self.cur_ae_verified = None
             return
         if tgt is self.net:
             if isinstance(ev, ProcessContinuation):
@@ -269,6 +275,8 @@ class Monitor:
         ci = log.commit_index
         if ci != self.commit_seen[i]:
             self._commit_changed(i, ci, st, term)
+        if self.pending_div:
+            self._flush_divergent()
         if self.dirty:
             self._poll_futures()
 
@@ -446,6 +454,8 @@ class Monitor:
             return "commit-counted-" + "+".join(sorted(causes))
         if k is not None and k in self.oldterm_commit:
             return "leader-committed-only-entries-of-earlier-terms"
+        if k is not None and k in self.beyond_compared:
+            return "follower-committed-beyond-compared-prefix"
         return "unexplained"
 
     # --------------------------------------------------------------- commits
@@ -467,6 +477,10 @@ class Monitor:
             return
         sh = self.shadow[i]
         ch = self.chains[i]
+        if st is not LEADER and self.cur_ae_verified is not None and ci > self.cur_ae_verified:
+            # the follower moved its commit point past what this AppendEntries covered
+            for k in range(max(old, self.cur_ae_verified) + 1, ci + 1):
+                self.beyond_compared.add(k)
         if st is LEADER and 0 < ci <= len(sh) and sh[ci - 1].term != term:
             # a leader moved its commit point to an entry that is not of its own term
             for k in range(old + 1, ci + 1):
@@ -532,6 +546,12 @@ class Monitor:
         if g is None:
             self.applied_at[k] = (cmd, i, eterm)
         elif g[0] != cmd:
+            # named after the sample that follows this handler (the classifier needs the finished state)
+            self.pending_div.append((i, k, cmd, eterm, g, self.now_ns))
+
+    def _flush_divergent(self):
+        pend, self.pending_div = self.pending_div, []
+        for i, k, cmd, eterm, g, _t in pend:
             root = self._root(k, g[2], eterm)
             self.violate(
                 "divergent-apply",
@@ -616,6 +636,7 @@ class Monitor:
         r.count("precursor_double_votes", sum(len(v) for v in self.double_votes.values()))
         r.count("precursor_overclaimed_match_index", self.overclaims)
         r.count("precursor_unsound_commits", len(self.unsound_at))
+        r.count("precursor_commit_beyond_compared_prefix", len(self.beyond_compared))
         r.count("consequent_violations_folded", self.consequent)
         r.seen("delivery_order", f"{self.order_hash:x}")
         r.seen("leader_history", ",".join(f"{t}:{self.names[i]}" for t, i in sorted(self.leader_of.items()))[:120])
